@@ -35,6 +35,7 @@ import (
 	"time"
 
 	"Havoc/cmd/server"
+	"Havoc/pkg/events"
 	"Havoc/pkg/handlers"
 	"Havoc/pkg/packager"
 
@@ -84,6 +85,13 @@ type LOp struct {
 	// HTTP listener Name, fired from separate goroutines at generated offsets while earlier
 	// ones are still being served (Conns/NConns: connections held open across the whole schedule)
 	Sched []SStep `json:"sched,omitempty"`
+
+	// op "bulk" (scale_test.go): a threshold-adjacent NUMBER of the same real call, judged at a
+	// checkpoint afterwards instead of after every single call
+	Bulk   string `json:"bulk,omitempty"`    // events (N retained events) | listeners (N listeners alive at once, Kind smb | ext | mixed | http) | cycles (N add/remove cycles of Name, Kind smb | ext)
+	N      int    `json:"n,omitempty"`       // the count
+	EvKind string `json:"ev_kind,omitempty"` // events: chat (operator chat message, as handleRequest appends and dispatches it) | log (teamserver log line, as the LogrSendText hook appends and broadcasts it) | mixed
+	Then   string `json:"then,omitempty"`    // listeners: keep | remove-half | remove-all (afterwards, second checkpoint); cycles: add (one more add at the end) | ""
 }
 
 // SStep is one request of a schedule.
@@ -229,7 +237,7 @@ func genA(t *rapid.T) CaseA {
 	zero := 0
 	base, names := genNameGroup(t, "names")
 	n := rapid.IntRange(1, 10).Draw(t, "n")
-	return CaseA{Base: base, Ops: genOps(t, n, map[string]string{}, &zero, names)}
+	return CaseA{Base: base, Ops: withScale(t, base, genOps(t, n, map[string]string{}, &zero, names))}
 }
 
 func genB(t *rapid.T) CaseA {
@@ -283,7 +291,7 @@ func genB(t *rapid.T) CaseA {
 		}
 	}
 	ops = append(ops, genOps(t, rapid.IntRange(0, 4).Draw(t, "n3"), pred, &left, names)...)
-	return CaseA{Base: base, Ops: ops}
+	return CaseA{Base: base, Ops: withScale(t, base, ops)}
 }
 
 // ---------------------------------------------------------------------------- reference side
@@ -403,8 +411,12 @@ func (w *worldA) post(e *ent, p probe) (int, error) {
 // operate dispatches one operator package; a panic inside the teamserver (which in the
 // real handleRequest goroutine ends the process) becomes a violation named after the
 // operation and the innermost teamserver function.
-func (w *worldA) operate(what string, sub int, info map[string]string) (v *core.Violation) {
-	return w.guard(what, func() { w.fx.Operator("op", packager.Type.Listener.Type, sub, info) }, info)
+func (w *worldA) operate(what string, sub int, info map[string]string, event ...int) (v *core.Violation) {
+	ev := packager.Type.Listener.Type
+	if len(event) > 0 {
+		ev = event[0]
+	}
+	return w.guard(what, func() { w.fx.Operator("op", ev, sub, info) }, info)
 }
 
 func (w *worldA) guard(what string, f func(), info ...map[string]string) (v *core.Violation) {
@@ -714,6 +726,10 @@ func skip(what string, err error) *core.Violation {
 	return nil
 }
 
+// abandonCase: the harness could not establish the situation the case describes (counted
+// in extra.cases_abandoned_by_harness); never reported.
+var abandonCase = &core.Violation{Sig: "abandoned"}
+
 // noteSched counts what schedules actually met at run time (evidence only).
 var schedSeen = map[string]int{}
 
@@ -994,6 +1010,8 @@ func checkA(c CaseA) *core.Violation {
 		fired    time.Time
 		returned bool
 		v        *core.Violation
+
+		wasWaiting bool // was still waiting when the current synchronous request was sent
 	}
 	const stopFrame = "handlers.(*HTTP).Stop("
 	runSchedule := func(i int, op LOp, me *ent) *core.Violation {
@@ -1034,6 +1052,7 @@ func checkA(c CaseA) *core.Violation {
 			stuck    bool
 			vFirst   *core.Violation
 			staleRet bool // a removal was answered after a listener it did not target had been given its name
+			overlap  bool // an add / edit was still being served when a waiting removal woke up (or came within 50 ms of it)
 		)
 		wait := func(p *pending) {
 			if p.returned {
@@ -1061,6 +1080,20 @@ func checkA(c CaseA) *core.Violation {
 				}
 			}
 			return p.returned
+		}
+		// clearOfWakeUps: the synchronous request that has just been answered finished at least
+		// 50 ms before any waiting removal wakes up ((*HTTP).Stop() returns 5 s after it was entered)
+		clearOfWakeUps := func() {
+			for _, p := range pend {
+				if p.what == "remove" && (poll(p) && p.wasWaiting || !p.returned && time.Now().After(p.fired.Add(5*time.Second-50*time.Millisecond))) {
+					overlap = true
+				}
+			}
+		}
+		markWaiting := func() {
+			for _, p := range pend {
+				p.wasWaiting = !poll(p)
+			}
 		}
 		for k, st := range steps {
 			rq := st.Req
@@ -1127,6 +1160,7 @@ func checkA(c CaseA) *core.Violation {
 				if !ok {
 					return nil
 				}
+				markWaiting()
 				if v := addSend(a); v != nil && vFirst == nil {
 					vFirst = v
 					break
@@ -1135,6 +1169,7 @@ func checkA(c CaseA) *core.Violation {
 					stuck = true
 					break
 				}
+				clearOfWakeUps()
 				if st.At == "after-first-removal" && firstRm != nil {
 					if svcx.CountGoroutines(stopFrame) > 0 {
 						noteSched("add-answered-after-first-removal-while-another-removal-still-waits")
@@ -1168,6 +1203,7 @@ func checkA(c CaseA) *core.Violation {
 			case "edit":
 				cfg := httpCfg{UA: rq.UA, Uris: rq.Uris, Headers: rq.Headers}
 				// the Edit dialog was opened on the listener the schedule began with
+				markWaiting()
 				if v := w.operate("edit", packager.Type.Listener.Edit, httpInfo(rq.Name, me.port, cfg, me.op)); v != nil && vFirst == nil {
 					vFirst = v
 					break
@@ -1176,6 +1212,7 @@ func checkA(c CaseA) *core.Violation {
 					stuck = true
 					break
 				}
+				clearOfWakeUps()
 				if len(cur) == 1 && known[cur[0]] != nil && known[cur[0]].e.kind == "http" {
 					known[cur[0]].e.cfg = cfg
 				}
@@ -1193,6 +1230,13 @@ func checkA(c CaseA) *core.Violation {
 			return inconclusive("a request of the schedule at step %d was not answered / teamserver goroutines did not come to rest", i)
 		}
 
+		if overlap {
+			// two requests were inside the unsynchronised listener code at the same time after all
+			// (a slow add - e.g. the key pair of an HTTPS listener on a busy machine - ran into a
+			// removal's wake-up): the outcome is not a function of the order; case abandoned, counted
+			skip("schedule-request-ran-into-a-removal-wake-up", nil)
+			return abandonCase
+		}
 		label := "schedule"
 		if staleRet {
 			label = "schedule-removal-answered-after-name-was-given-to-a-new-listener"
@@ -1261,17 +1305,200 @@ func checkA(c CaseA) *core.Violation {
 		return nil
 	}
 
+	// ---- scale: a threshold-adjacent number of the same REAL call (operator packages through
+	// EventAppend+DispatchEvent, teamserver log lines through EventAppend+EventBroadcast); the
+	// views / model oracle is evaluated at checkpoints: right after the bulk, after the
+	// follow-up removals, and - by the ordinary steps of the history - after every later step.
+	runBulk := func(i int, op LOp) *core.Violation {
+		n := op.N
+		if n < 0 {
+			n = 0
+		}
+		checkpoint := func(label string) *core.Violation {
+			if !svcx.Quiesce() {
+				return inconclusive("teamserver goroutines did not come to rest after %s", label)
+			}
+			if v := w.invariants(label); v != nil {
+				return v
+			}
+			return modelCheck(label)
+		}
+		switch op.Bulk {
+		case "events":
+			if n > maxBulkEvents {
+				n = maxBulkEvents
+			}
+			var v *core.Violation
+			for k := 0; k < n && v == nil; k++ {
+				kind := op.EvKind
+				if kind == "mixed" {
+					kind = []string{"chat", "log", "log"}[k%3]
+				}
+				switch kind {
+				case "log":
+					v = w.guard("log-line", func() {
+						pk := events.Teamserver.Logger(fmt.Sprintf("[*] line %d", k))
+						ts.EventAppend(pk)
+						ts.EventBroadcast("", pk)
+					})
+				default:
+					v = w.operate("chat", packager.Type.Chat.NewMessage, map[string]string{"op": "bWVzc2FnZQ=="}, packager.Type.Chat.Type)
+				}
+			}
+			if v != nil {
+				return v
+			}
+			return checkpoint("bulk-events")
+
+		case "listeners":
+			kindOf := func(k int) string {
+				switch op.Kind {
+				case "smb", "ext", "http":
+					return op.Kind
+				}
+				return []string{"smb", "ext"}[k%2]
+			}
+			if op.Kind == "http" && n > maxBulkHTTP {
+				n = maxBulkHTTP
+			}
+			if n > maxBulkListeners {
+				n = maxBulkListeners
+			}
+			adds := map[string]*addCtx{}
+			var names []string
+			for k := 0; k < n; k++ {
+				add := LOp{Op: "add", Name: fmt.Sprintf("%s#%d", op.Name, k), Kind: kindOf(k), Port: "fresh", Endpoint: fmt.Sprintf("bulk-%s-%d", op.Name, k)}
+				if _, taken := model[add.Name]; taken {
+					continue
+				}
+				a, ok := addPrep(add, "")
+				if !ok {
+					return nil
+				}
+				if v := addSend(a); v != nil {
+					return v
+				}
+				adds[add.Name] = a
+				names = append(names, add.Name)
+			}
+			if !svcx.Quiesce() {
+				return inconclusive("teamserver goroutines did not come to rest after the bulk of adds")
+			}
+			byName := map[string]*server.Listener{}
+			for _, l := range ts.Listeners {
+				if _, mine := adds[l.Name]; mine {
+					byName[l.Name] = l
+				}
+			}
+			var https []*ent
+			for _, nm := range names {
+				a, l := adds[nm], byName[nm]
+				if l == nil {
+					return core.V("listener|add|missing|"+a.op.Kind+"|bulk", "step %d: add %s %q (new name, one of a bulk of %d adds) left no listener of that name", i, a.op.Kind, nm, n)
+				}
+				e := &ent{kind: kindOfListener(l), port: a.port, cfg: a.cfg, op: a.op}
+				if e.kind != a.op.Kind {
+					return core.V("listener|add|wrong-kind|"+a.op.Kind, "step %d: add %s %q (bulk) produced a %s listener", i, a.op.Kind, nm, e.kind)
+				}
+				if x, ok := l.Config.(*handlers.External); ok {
+					e.ep = x.Config.Endpoint
+				}
+				if h, ok := l.Config.(*handlers.HTTP); ok {
+					e.active = h.Active
+					if e.active {
+						https = append(https, e)
+					}
+				}
+				model[nm] = e
+			}
+			if v := checkpoint("bulk-listeners"); v != nil {
+				return v
+			}
+			for k, e := range https {
+				if k != 0 && k != len(https)/2 && k != len(https)-1 {
+					continue
+				}
+				if code, err := w.post(e, probeFor(e.cfg)); err != nil || code != 200 {
+					return core.V("listener|add|http|not-serving", "step %d: HTTP listener %d of a bulk of %d reports Active on port %s but a request carrying its own configuration gets %d / %v", i, k, len(https), e.port, code, err)
+				}
+			}
+			var rm []string
+			switch {
+			case op.Kind == "http":
+			case op.Then == "remove-all":
+				rm = names
+			case op.Then == "remove-half":
+				for k, nm := range names {
+					if k%2 == 0 {
+						rm = append(rm, nm)
+					}
+				}
+			}
+			if len(rm) == 0 {
+				return nil
+			}
+			for _, nm := range rm {
+				if v := w.operate("remove", packager.Type.Listener.Remove, map[string]string{"Name": nm}); v != nil {
+					return v
+				}
+				delete(model, nm)
+			}
+			return checkpoint("bulk-listeners-" + op.Then)
+
+		case "cycles":
+			if n > maxBulkCycles {
+				n = maxBulkCycles
+			}
+			if _, taken := model[op.Name]; taken {
+				skip("bulk-cycles-name-taken", nil)
+				return nil
+			}
+			kind := op.Kind
+			if kind != "ext" {
+				kind = "smb"
+			}
+			add := LOp{Op: "add", Name: op.Name, Kind: kind, Endpoint: "cycle-" + op.Name}
+			for k := 0; k < n; k++ {
+				a, _ := addPrep(add, "")
+				if v := addSend(a); v != nil {
+					return v
+				}
+				if v := w.operate("remove", packager.Type.Listener.Remove, map[string]string{"Name": op.Name}); v != nil {
+					return v
+				}
+			}
+			if v := checkpoint("bulk-cycles"); v != nil {
+				return v
+			}
+			if op.Then == "add" {
+				a, _ := addPrep(add, "")
+				if v := addSend(a); v != nil {
+					return v
+				}
+				return addJudge(i, a, "add-"+kind+"-after-bulk-cycles")
+			}
+		}
+		return nil
+	}
+
 	for i, op := range c.Ops {
 		me := model[op.Name]
 		before := find(ts, op.Name)
 		switch op.Op {
+
+		case "bulk":
+			if v := runBulk(i, op); v != nil {
+				return v
+			}
 
 		case "sched":
 			if me == nil || me.kind != "http" || !me.active || me.port == "" || len(before) != 1 || len(op.Sched) == 0 {
 				skip("schedule-without-a-running-http-listener", nil)
 				continue
 			}
-			if v := runSchedule(i, op, me); v != nil {
+			if v := runSchedule(i, op, me); v == abandonCase {
+				return nil
+			} else if v != nil {
 				return v
 			}
 
@@ -1511,6 +1738,8 @@ func classifyA(c CaseA) core.Class {
 	for _, op := range c.Ops {
 		k, present := pred[op.Name]
 		switch op.Op {
+		case "bulk":
+			// labelled below (scaleLabelsA); the bulk's own names are not names of the group
 		case "sched":
 			if !present || k != "http" || len(op.Sched) == 0 {
 				cl.Labels = append(cl.Labels, "schedule:not-run(no-running-http-listener-of-that-name)")
@@ -1663,10 +1892,15 @@ func classifyA(c CaseA) core.Class {
 	if sched != "" {
 		cl.Fingerprint += "|schedule=" + sched
 	}
+	if sl, fp := scaleLabelsA(c.Ops); fp != "" {
+		cl.Labels = append(cl.Labels, sl...)
+		cl.Fingerprint += "|scale=" + fp
+		cl.NonTrivial = true
+	}
 	return cl
 }
 
-const ruleA = "histories of operator Listener Add/Edit/Remove packages (client-shaped Info, via EventAppend+DispatchEvent as handleRequest does) over names {a,b,c} x kinds {HTTP on a fresh loopback port / on a port held by the harness / on the port of a running HTTP listener, SMB, External, service-defined kind registered by a real websocket service connection answering ok/error/not at all}, existing and unknown names included, edits incl. a stale HTTP edit dialog; after every step: names in ts.Listeners pairwise distinct; for built-in kinds names(ts.Listeners)==names(TS_Listeners rows)==listener table a new operator ends up with after the replay of ts.EventsList (folded as the client does); added name present with the right kind, duplicate add changes nothing, removed name gone; running HTTP listener serves a request carrying its own UA/URI/headers; after an edit old-config / new-config / foreign requests over real TCP get 200/404 as the NEW configuration demands; a removed HTTP listener refuses TCP connects; every port the history handed to an HTTP add (or the kernel chose for one) on which the teamserver process accepts TCP connections belongs to an HTTP listener that is in ts.Listeners (no server keeps accepting that is neither listed, persisted nor advertised). Non-trivial: a duplicate or unknown name, or a failed start (busy port / service script reports error or stays silent); distinct = (dup, unknown, failed, http removals, stale edits: each 0/1/2+; set of kinds added)"
+const ruleA = "histories of operator Listener Add/Edit/Remove packages (client-shaped Info, via EventAppend+DispatchEvent as handleRequest does) over names {a,b,c} x kinds {HTTP on a fresh loopback port / on a port held by the harness / on the port of a running HTTP listener, SMB, External, service-defined kind registered by a real websocket service connection answering ok/error/not at all}, existing and unknown names included, edits incl. a stale HTTP edit dialog; after every step: names in ts.Listeners pairwise distinct; for built-in kinds names(ts.Listeners)==names(TS_Listeners rows)==listener table a new operator ends up with after the replay of ts.EventsList (folded as the client does); added name present with the right kind, duplicate add changes nothing, removed name gone; running HTTP listener serves a request carrying its own UA/URI/headers; after an edit old-config / new-config / foreign requests over real TCP get 200/404 as the NEW configuration demands; a removed HTTP listener refuses TCP connects; every port the history handed to an HTTP add (or the kernel chose for one) on which the teamserver process accepts TCP connections belongs to an HTTP listener that is in ts.Listeners (no server keeps accepting that is neither listed, persisted nor advertised). SCALE: in one history of 40 one to three BULK operations are placed before / between / after the ordinary steps, with a threshold-adjacent count from {63,64,65,127,128,129,255,256,257,511,512,513,999,1000,1001,1023,1024,1025,2047,2048,2049,4095,4096,4097,8191,8192,8193}: retained events (operator chat messages through EventAppend+DispatchEvent as handleRequest does, teamserver log lines through events.Teamserver.Logger+EventAppend+EventBroadcast as the LogrSendText hook does, or both mixed; pool up to 8193, thorough 16385), listeners alive at once (operator Add packages for SMB / External / alternating listeners, pool cut at 1025, thorough 4097; HTTP listeners with a port and a server each, pool cut at 129, thorough 257; afterwards kept, every second one or all removed again), add/remove cycles of one name (pool cut at 1025, thorough 2049: every removal copies the event list); the single calls of a bulk are not judged one by one, the whole oracle (views, accepting sockets, listener list == history, External routes) is evaluated at checkpoints: right after the bulk, after the bulk's follow-up removals / one more add, after every later ordinary step and so at the end. Non-trivial: a duplicate or unknown name, a bulk, or a failed start (busy port / service script reports error or stays silent); distinct = (dup, unknown, failed, http removals, stale edits: each 0/1/2+; set of kinds added)"
 
 var assumptionsA = []string{
 	"operator packages are dispatched without a connected operator socket: replies to 'the user' and broadcasts are no-ops; the advertised set is read from ts.EventsList, which is exactly what SendAllPackagesToNewClient sends",
